@@ -279,12 +279,15 @@ def recipField (c : Cbor) : Dec Recip :=
   match c with
   | .arr [p, u, ct] => (match recip0Field (.arr [p, u, ct]) with
       | .ok r => .ok ⟨r, []⟩ | .err => .err | .unmodelled => .unmodelled)
-  | .arr [p, u, ct, .arr subs] =>
-    (match recip0Field (.arr [p, u, ct]), decSeq recip0Field subs with
-     | .ok r, .ok ss => if ss.isEmpty then .err else .ok ⟨r, ss⟩
-     | .err, _ => .err
-     | _, .err => .err
-     | _, _ => .unmodelled)
+  | .arr [p, u, ct, s] =>
+    (match untag s with          -- fxamacker skips tags in front of the nested array
+     | .arr subs =>
+       (match recip0Field (.arr [p, u, ct]), decSeq recip0Field subs with
+        | .ok r, .ok ss => if ss.isEmpty then .err else .ok ⟨r, ss⟩
+        | .err, _ => .err
+        | _, .err => .err
+        | _, _ => .unmodelled)
+     | _ => .err)
   | _ => .err
 
 /-- decode the wire array of kind `k` -/
